@@ -91,7 +91,7 @@ class ExplicitEuler(ApiImmut):
         tags = ['normalize=%s' % v['normalize']]
         if not small(v['operator']):
             return
-        hs = list(v['step_sizes'])
+        hs = [float(x) for x in v['step_sizes']]  # (as doubles: see Splitting)
         if not traj_ok(c, self.api, res, len(hs) + 1, v['initial_value'], tags):
             return
         A = opm(v['operator'])
@@ -125,7 +125,7 @@ class ImplicitScheme(ApiImmut):
         tags = ['normalize=%s' % v['normalize'], 'tt_solver=' + str(v['tt_solver']), 'micro=' + str(v['micro_solver'])]
         if not small(v['operator']):
             return
-        hs = list(v['step_sizes'])
+        hs = [float(x) for x in v['step_sizes']]  # (as doubles: see Splitting)
         if not traj_ok(c, self.api, res, len(hs) + 1, v['initial_value'], tags):
             return
         A = opm(v['operator'])
@@ -178,7 +178,7 @@ class Hod(ApiImmut):
             return
         A = opm(v['operator'])
         n = A.shape[0]
-        h = v['step_size']
+        h = float(v['step_size'])
         H = hod_series(A, h, order)
         if v['op_hod'] is not None:
             # a precomputed series operator was handed in: the two-step recurrence is x_{k+1} = x_{k-1} + op_hod x_k with THAT
@@ -223,7 +223,7 @@ class Errors(ApiImmut):
         A = opm(v['operator'])
         n = A.shape[0]
         sol = [vec(x) for x in v['solution']]
-        hs = list(v['step_sizes'])
+        hs = [float(x) for x in v['step_sizes']]  # (as doubles: see Splitting)
         want = []
         for k in range(len(sol) - 1):
             h = hs[k]
@@ -369,9 +369,15 @@ class Splitting(ApiImmut):
             return
         mr = max(max_ranks(dims, [1] * d))
         if v['threshold'] > 1e-10 or v['max_rank'] < mr or (v['tmp_rank'] not in (0, None) and v['tmp_rank'] < mr):
+            # with an effective truncation the values are not determined by the statement, the normalisation is: "enabling
+            # normalisation returns unit-norm states" holds for what is returned, i.e. after whatever was cut off
+            if v['normalize'] > 0:
+                for k in range(N):
+                    check_unit_norm_p(c, self.api, res[k + 1], v['normalize'], tags + ['truncation_effective'], k, P10)
             c.skip('splitting_truncation_effective')
             return
-        h = v['step_size']
+        h = float(v['step_size'])  # (the value that was passed, as a double: products of Python floats with np.float32 / np.float16 scalars
+        # would otherwise be rounded to that precision inside the reference)
         Phi = step_matrix(self.scheme, Ae, Ao, h)
         A = Ae + Ao
         skew = float(np.max(np.abs(A + A.conj().T))) <= 1e-12 * max(float(np.max(np.abs(A))), 1e-300) and \
@@ -490,7 +496,7 @@ class Tdvp(ApiImmut):
         v = self._v(args, kwargs)
         op, x0 = v['operator'], v['initial_value']
         N = int(v['number_of_steps'])
-        h = v['step_size']
+        h = float(v['step_size'])
         tags = ['scheme=' + self.name, 'normalize=%s' % v['normalize']]
         good = isinstance(res, list) and all(_is_tt(x) and tt_consistent(x)[0] for x in res)
         c.check(self.api, 'returns_list_of_consistent_tt', good, tags, prop=P11)
@@ -572,7 +578,7 @@ class Krylov(ApiImmut):
             return
         import scipy.linalg as sla
         with probe.oracle():
-            y = sla.expm(-1j * v['step_size'] * H) @ xv
+            y = sla.expm(-1j * float(v['step_size']) * H) @ xv
         if v['normalize'] > 0:
             y = y / lib_norm(y, v['normalize'])
         got = vec(res)
